@@ -505,7 +505,14 @@ pub fn run(sc: &Scenario, opts: &RunOptions) -> RunRecord {
                     rx_bytes += bytes.len() as u64;
                     parser.push(&bytes);
                     while let Some(msg) = parser.next() {
-                        if matches!(msg, RxMsg::Response { .. }) {
+                        // a malformed message that looks like an answer (it has an id member or a
+                        // result / error) still lets a waiting client go on; it is judged later
+                        let answer_like = match &msg {
+                            RxMsg::Response { .. } => true,
+                            RxMsg::Malformed { body, .. } => body.contains("\"id\"") || body.contains("\"result\"") || body.contains("\"error\""),
+                            _ => false,
+                        };
+                        if answer_like {
                             responses_seen += 1;
                         }
                         rx_frames.push(RxFrame {
